@@ -372,6 +372,14 @@ theorem fifo_step {Kab Kba : Codec} (SyncAB : Kab.SS → Kab.RS → Prop) (SyncB
     · exact rb1
     · rw [h9l]; exact la0
     · rw [h9l]; exact la1
+  | unreadA k =>
+    refine ⟨pAB, pBA, dAB, dBA, eA, ?_, hf, hca, hcb, ra0, ra1, rb0, rb1, la0, la1, lb0, lb1⟩
+    simp only [step]
+    rw [← eB, ← List.append_assoc (c.deliveredA.take _), List.take_append_drop]
+  | unreadB k =>
+    refine ⟨pAB, pBA, dAB, dBA, ?_, eB, hf, hca, hcb, ra0, ra1, rb0, rb1, la0, la1, lb0, lb1⟩
+    simp only [step]
+    rw [← eA, ← List.append_assoc (c.deliveredB.take _), List.take_append_drop]
   | setSizeA n =>
     have hn : 0 < n := hop
     refine ⟨pAB, pBA, dAB, dBA, eA, eB, hf, hca, hcb, ?_, ?_, rb0, rb1, la0, la1, lb0, lb1⟩ <;>
@@ -405,8 +413,8 @@ theorem fifo_step {Kab Kba : Codec} (SyncAB : Kab.SS → Kab.RS → Prop) (SyncB
     · rw [h9l]; exact lb0
     · rw [h9l]; exact lb1
 
-/-- `stream_fifo`: for EVERY interleaving of `write`, `read(max, min)` and `recordSize = n` (n > 0)
-    operations on the two endpoints, over any lawful record protection: per direction, what was delivered to the
+/-- `stream_fifo`: for EVERY interleaving of `write`, `read(max, min)`, `unread` (push back the last k
+    bytes handed out) and `recordSize = n` (n > 0) operations on the two endpoints, over any lawful record protection: per direction, what was delivered to the
     application, followed by what sits in the read buffer, followed by the plaintext of the records
     in flight (in order), is exactly what was written — nothing duplicated, reordered, invented or
     lost; no operation fails (no decrypt failure, no alert), nobody closes. -/
